@@ -230,6 +230,9 @@ func (t *Term) Subst(m map[types.Object]*Term) *Term {
 	if !changed {
 		return t
 	}
+	if t.Op == "deref" && len(args) == 1 && args[0].Op == "addr" {
+		return args[0].Args[0] // *(&x) is x
+	}
 	n := &Term{Op: t.Op, Obj: t.Obj, Int: t.Int, Str: t.Str, Args: args, Pos: t.Pos}
 	return normTerm(n)
 }
